@@ -20,9 +20,10 @@ CONSTANTS Pkgs,          \* e.g. {"p", "q"}
 \*  bad      : an injector Wire must refuse (missing provider)
 \*  noinj    : no injector at all (a provider set only)
 \*  typeerr  : does not type-check (outside the properties' quantifier; modelled as what happens)
-Variants == {"okA", "okB", "bad", "noinj", "typeerr"}
-HasInj(v) == v \in {"okA", "okB", "bad", "typeerr"}
-Generates(v) == v \in {"okA", "okB"}
+\*  okA2     : okA plus one more injector at the end (its output extends okA's output)
+Variants == {"okA", "okA2", "okB", "bad", "noinj", "typeerr"}
+HasInj(v) == v \in {"okA", "okA2", "okB", "bad", "typeerr"}
+Generates(v) == v \in {"okA", "okA2", "okB"}
 
 Headers  == {"none", "ok", "unreadable"}
 Tags     == {"", "extra"}
@@ -30,7 +31,7 @@ Tags     == {"", "extra"}
 \* content of an output file
 Fresh(v, hdr, tg) == "gen:" \o v \o ":" \o hdr \o ":" \o tg
 Junk == {"stale", "broken", "garbage"}          \* all carry the !wireinject constraint
-Contents == {"absent"} \cup Junk \cup {Fresh(v, h, t) : v \in {"okA", "okB"}, h \in {"none", "ok"}, t \in Tags}
+Contents == {"absent"} \cup Junk \cup {Fresh(v, h, t) : v \in {"okA", "okA2", "okB"}, h \in {"none", "ok"}, t \in Tags}
 
 VARIABLES src,    \* package -> variant
           disk,   \* <<package, prefix>> -> content
@@ -51,6 +52,7 @@ Init == /\ src \in [Pkgs -> {"okA", "bad", "noinj"}]
 \* reach every combination of stale / damaged / fresh files and source variants
 InitAny == /\ src \in [Pkgs -> Variants]
            /\ disk \in [Slot -> Contents]
+           /\ \A s \in Slot : s[2] # "std" => disk[s] \in {"absent", "stale", Fresh("okA", "none", "")}   \* keeps the number of initial states below TLC's simulation limit
            /\ hist = <<>>
            /\ last = [cmd |-> "none", args |-> [pkgs |-> {}], exit |-> 0]
 
@@ -58,7 +60,7 @@ InitAny == /\ src \in [Pkgs -> Variants]
 \* exactly fresh for some (header, tags) - the states in which diff / gen status and isolation are decided
 InitFocus == /\ src \in [Pkgs -> Variants]
              /\ \E h \in {"none", "ok"}, t \in Tags :
-                  disk \in [Slot -> {"absent", "stale"} \cup {Fresh(v, h, t) : v \in {"okA", "okB"}}]
+                  disk \in [Slot -> {"absent", "stale"} \cup {Fresh(v, h, t) : v \in {"okA", "okA2", "okB"}}]
              /\ \A s \in Slot : disk[s] \in {"absent", "stale"} \/ (Generates(src[s[1]]) /\ \E h \in {"none", "ok"}, t \in Tags : disk[s] = Fresh(src[s[1]], h, t))
              /\ hist = <<>>
              /\ last = [cmd |-> "none", args |-> [pkgs |-> {}], exit |-> 0]
@@ -142,7 +144,7 @@ FailingUntouched == [][IsGen => \A s \in Slot : ~Generates(src[s[1]]) => disk'[s
 ReadOnly == [][last'.cmd \in {"diff", "check", "show"} => disk' = disk /\ src' = src]_vars
 \* C17: exit 0 exactly when no package produced an error
 GenStatus == [][IsGen /\ last'.args.header # "unreadable" =>
-                 (last'.exit = 0 <=> \A p \in last'.args.pkgs : src[p] \in {"okA", "okB", "noinj"})]_vars
+                 (last'.exit = 0 <=> \A p \in last'.args.pkgs : src[p] \in {"okA", "okA2", "okB", "noinj"})]_vars
 \* C17: a failing package does not prevent output for the others of the same invocation
 Isolation == [][IsGen /\ last'.args.header # "unreadable" /\ ~LoadFails(last'.args.pkgs) =>
                  \A p \in last'.args.pkgs : Generates(src[p]) =>
